@@ -1181,6 +1181,29 @@ fn all_cases(cx: &mut Ctx, thorough: bool) -> Vec<Case> {
     cases
 }
 
+/// The case the main thread is working on, for the watchdog: a library call that never returns (an endless merge
+/// loop, say) must end as a failure with a replay, not as a harness that hangs until the check's time-out.
+static CURRENT: std::sync::Mutex<Option<(std::time::Instant, String)>> = std::sync::Mutex::new(None);
+const RULE: &str = "every public sort / merge / set-operation entry point x configuration (radix width 1..16, forced strategy, parallel on/off with small thresholds, thread counts, cache sizes, buffer sizes, fan-in) on boundary-biased inputs (empty, singleton, all equal, sorted, reversed, nearly sorted, high-byte-only differences, 2^k +-1, lengths around the thresholds); loser tree enumerated over 0..3 ways of sorted sequences of length <= 2 over a 3-value alphabet; a case is non-trivial when it has >= 2 input elements; distinct = distinct (cell, configuration, input)";
+fn watch(c: &Case) { *CURRENT.lock().unwrap() = Some((std::time::Instant::now(), c.json().to_string())); }
+fn unwatch() { *CURRENT.lock().unwrap() = None; }
+fn start_watchdog(out: String, limit_s: u64, tmp: PathBuf) {
+    std::thread::spawn(move || loop {
+        std::thread::sleep(std::time::Duration::from_millis(250));
+        let hung = match &*CURRENT.lock().unwrap() { Some((t0, cj)) if t0.elapsed().as_secs() >= limit_s => Some(cj.clone()), _ => None };
+        if let Some(cj) = hung {
+            let v: Value = serde_json::from_str(&cj).unwrap_or(json!({}));
+            let c = Case::from_json(&v);
+            let mut sum = Summary::new("C11", RULE);
+            sum.eval(&c.cell, &c.key(), true);
+            sum.fail(&c.cell, known_class(&c), v, &format!("the call did not return within {} s (endless loop) where the property demands a result", limit_s));
+            sum.write(&out, vec![]);
+            let _ = std::fs::remove_dir_all(&tmp);
+            std::process::exit(0);
+        }
+    });
+}
+
 pub fn run(args: &Args) {
     let tmp = {
         let base = if std::path::Path::new("/dev/shm").is_dir() { PathBuf::from("/dev/shm") } else { PathBuf::from(&args.out) };
@@ -1200,7 +1223,7 @@ pub fn run(args: &Args) {
         }
     }
     let mut cx = Ctx {
-        sum: Summary::new("C11", "every public sort / merge / set-operation entry point x configuration (radix width 1..16, forced strategy, parallel on/off with small thresholds, thread counts, cache sizes, buffer sizes, fan-in) on boundary-biased inputs (empty, singleton, all equal, sorted, reversed, nearly sorted, high-byte-only differences, 2^k +-1, lengths around the thresholds); loser tree enumerated over 0..3 ways of sorted sequences of length <= 2 over a 3-value alphabet; a case is non-trivial when it has >= 2 input elements; distinct = distinct (cell, configuration, input)"),
+        sum: Summary::new("C11", RULE),
         shards: CoqShards::new(HEADER, 300),
         budget: if args.thorough { 6000 } else { 1500 },
         per_op: Default::default(),
@@ -1209,11 +1232,16 @@ pub fn run(args: &Args) {
         out: args.out.clone(),
         threads: pool_threads(),
     };
+    let limit = std::env::var("ZV_C11_WATCHDOG").ok().and_then(|s| s.parse().ok()).unwrap_or(if args.replay.is_some() { 20 } else { 60 });
+    start_watchdog(args.out.clone(), limit, tmp.clone());
     if let Some(f) = &args.replay {
         let txt = std::fs::read_to_string(f).expect("replay file");
         let v: Value = serde_json::from_str(&txt).expect("replay json");
         let cv = if v.get("case").is_some() { v["case"].clone() } else { v };
-        run_case(&mut cx, &Case::from_json(&cv), true);
+        let c = Case::from_json(&cv);
+        watch(&c);
+        run_case(&mut cx, &c, true);
+        unwatch();
         let sh = cx.shards.write(&args.out);
         cx.sum.write(&args.out, sh);
         let _ = std::fs::remove_dir_all(&tmp);
@@ -1228,7 +1256,10 @@ pub fn run(args: &Args) {
             if let Ok(txt) = std::fs::read_to_string(&p) {
                 if let Ok(v) = serde_json::from_str::<Value>(&txt) {
                     let cv = if v.get("case").is_some() { v["case"].clone() } else { v };
-                    run_case(&mut cx, &Case::from_json(&cv), true);
+                    let c = Case::from_json(&cv);
+                    watch(&c);
+                    run_case(&mut cx, &c, true);
+                    unwatch();
                     cx.sum.dist("corpus_cases");
                 }
             }
@@ -1239,7 +1270,9 @@ pub fn run(args: &Args) {
     let mut fam_ms: std::collections::BTreeMap<String, u128> = Default::default();
     for (i, c) in cases.iter().enumerate() {
         let t0 = std::time::Instant::now();
+        watch(c);
         run_case(&mut cx, c, false);
+        unwatch();
         *fam_ms.entry(c.cell.split('/').next().unwrap_or("").to_string()).or_insert(0) += t0.elapsed().as_micros();
         if i % 97 == 0 { cx.sum.sample(json!({"cell": c.cell, "cfg": c.p, "n": c.xs.len() + c.a.len() + c.b.len() + c.runs.len() + c.strs.len()})); }
         cx.sum.dist(&format!("family={}", c.cell.split('/').next().unwrap_or("")));
